@@ -1,5 +1,72 @@
+/-
+  C17 — fragmented messages read like contiguous ones.
+
+  For every function `f` of mptcore/message working on a fragment list the theorem `f_flat` says:
+  the implementation model (Impl/Message.lean, which walks the fragments like the C code does) gives
+  the result of the same operation on the ONE contiguous byte string `frags.flatten`
+  (Spec/Flat.lean) — for EVERY fragment list, including empty fragments anywhere.
+  For functions that move the cursor the statement covers the bytes copied, the returned count and
+  the content that remains.
+-/
 import MptModel.Impl.Message
 import MptModel.Spec.Flat
+import MptModel.Lemmas.Message
 namespace Mpt.C17
-theorem placeholder : True := trivial
+open Mpt Mpt.Flat
+
+/-- `mpt_message_read`: bytes copied, content left, returned count -/
+theorem read_flat (m : Msg) (n : Nat) :
+    (m.read n).out = (Flat.read m.flat n).1 ∧
+    (m.read n).msg.flat = (Flat.read m.flat n).2 ∧
+    (m.read n).total = (Flat.read m.flat n).1.length := by
+  have h := readLoop_eq m.base m.cont n 0 []
+  simp only [Msg.read, Flat.read, Msg.flat]
+  refine ⟨by simpa using h.1, h.2.1, ?_⟩
+  rw [h.2.2]; simp
+example : (Msg.read ⟨[1, 2], [[], [3], [4, 5]]⟩ 4).out = [1, 2, 3, 4] ∧
+    (Msg.read ⟨[1, 2], [[], [3], [4, 5]]⟩ 4).msg.flat = [5] := by decide
+
+/-- `mpt_message_length` -/
+theorem length_flat (m : Msg) : m.length = Flat.length m.flat := by
+  simp [Msg.length, Flat.length, Msg.flat, foldl_len]
+example : (Msg.mk [1, 2] [[], [3], [4, 5]]).length = 5 := by decide
+
+/-- `mpt_memchr` -/
+theorem chr_flat (frags : List Frag) (b : Byte) : Iov.memchr frags b = Flat.chr frags.flatten b :=
+  memfcn_eq frags _
+example : Iov.memchr [[1, 2], [], [3, 4]] 4 = some 3 := by decide
+
+/-- `mpt_memrchr` -/
+theorem rchr_flat (frags : List Frag) (b : Byte) : Iov.memrchr frags b = Flat.rchr frags.flatten b :=
+  memrfcn_eq frags _
+example : Iov.memrchr [[1, 2], [], [1, 4]] 1 = some 2 := by decide
+
+/-- `mpt_memfcn` for every match function -/
+theorem fcn_flat (frags : List Frag) (p : Byte → Bool) : Iov.memfcn frags p = Flat.find p frags.flatten :=
+  memfcn_eq frags p
+
+/-- `mpt_memrfcn` for every match function -/
+theorem rfcn_flat (frags : List Frag) (p : Byte → Bool) : Iov.memrfcn frags p = Flat.rfind p frags.flatten :=
+  memrfcn_eq frags p
+example : Iov.memrfcn [[1, 2], [7], []] (· < 5) = some 1 := by decide
+
+/-- `mpt_memstr` -/
+theorem str_flat (frags : List Frag) (set : List Byte) : Iov.memstr frags set = Flat.str frags.flatten set := by
+  simp only [Iov.memstr, Flat.str, memfcn_eq]
+/-- `mpt_memrstr` -/
+theorem rstr_flat (frags : List Frag) (set : List Byte) : Iov.memrstr frags set = Flat.rstr frags.flatten set := by
+  simp only [Iov.memrstr, Flat.rstr, memrfcn_eq]
+example : Iov.memstr [[1], [], [2, 3]] [9, 3] = some 2 := by decide
+
+/-- `mpt_memtok` for every token/comment/escape set: the scanner state (open quote, previous
+    character, comment) is carried across every fragment boundary -/
+theorem tok_flat (frags : List Frag) (a : TokArgs) : Iov.memtok frags a = Flat.tok frags.flatten a :=
+  memtok_eq frags a
+example : Iov.memtok [[39, 97], [32, 98, 39], [], [32]] wsTok = some 5 := by decide
+
+/-- `mpt_message_append` (after fix 4f20369): the array grows by exactly the message content -/
+theorem append_flat (arr : List Byte) (m : Msg) : m.append arr = Flat.append arr m.flat :=
+  append_eq arr m
+example : (Msg.mk [1] [[], [2, 3]]).append [9] = [9, 1, 2, 3] := by decide
+
 end Mpt.C17
